@@ -122,7 +122,7 @@ func c17(c *core.Ctx) {
 	}
 
 	rLock := c.Rule("C17.cond-lock", "a write to wait-predicate state happens under the cond's lock, or a Broadcast/Signal issued under that lock follows it on every path (otherwise a waiter between its test and Wait misses the wake-up forever)", 3)
-	rSig := c.Rule("C17.cond-signal", "a write that can make a waiter's predicate false is followed by Broadcast/Signal on every path to exit", 3)
+	rSig := c.Rule("C17.cond-signal", "a write that can make a waiter's predicate false is followed by Broadcast/Signal on every path to exit", 2)
 	seenOwner := map[string]bool{}
 	for _, w := range waits {
 		c.Touch(w.Fn)
@@ -208,6 +208,67 @@ func c17(c *core.Ctx) {
 	}
 
 	// C17.ctx: unbounded wait loops have a context exit.
+	// C17.slot: summoners of one name park in cond.Wait() while another summoner owns the name (ready == true);
+	// they are woken only by the owner's release. Every exit of the owner must pass that release.
+	rSl := c.Rule("C17.slot", "once SummonSwamp has made itself the owner of a swamp name (it stored true into the waiter's ready flag, the predicate the other summoners wait on), every path to a function exit clears the flag again - directly, through a helper, or through a defer registered before any return can be taken: an owner that leaves without releasing parks every later summoner of that name forever, and their LockSystem holds block shutdown", 1)
+	{
+		sum := c.Fn(pkgHydra + ".hydra.SummonSwamp")
+		info := sum.Info()
+		readyF := p.MustField(pkgHydra, "SwampWaiter", "ready")
+		// functions (other than SummonSwamp) that clear the flag
+		clearers := map[*core.Func]bool{}
+		for _, g := range p.FuncsIn(pkgHydra) {
+			if g == sum || g.Decl.Body == nil {
+				continue
+			}
+			for _, a := range core.Accesses(g.Info(), g.Decl.Body, map[*types.Var]bool{readyF: true}, true) {
+				if a.Write && a.Form == "assign-false" {
+					clearers[g] = true
+				}
+			}
+		}
+		clears := func(n ast.Node) bool {
+			found := false
+			ast.Inspect(n, func(x ast.Node) bool {
+				switch v := x.(type) {
+				case *ast.AssignStmt:
+					for i, l := range v.Lhs {
+						if core.FieldOf(info, l) == readyF && i < len(v.Rhs) {
+							if b, isB := core.BoolLit(info, v.Rhs[i]); isB && !b {
+								found = true
+							}
+						}
+					}
+				case *ast.CallExpr:
+					if t := p.ByObj[core.Callee(info, v)]; t != nil && clearers[t] {
+						found = true
+					}
+				}
+				return true
+			})
+			return found
+		}
+		fl := core.NewFlow(p, info, sum.Decl.Body)
+		n := 0
+		for _, a := range core.Accesses(info, sum.Decl.Body, map[*types.Var]bool{readyF: true}, false) {
+			if !a.Write || a.Form != "assign-true" {
+				continue
+			}
+			n++
+			loc, ok := fl.Locate(a.Node)
+			if !ok {
+				rSl.Undecided(sum.Key+":owner-releases", a.Node.Pos(), "cannot locate the statement that takes the slot")
+				continue
+			}
+			leak := fl.ExitWithout(loc, nil, false, clears)
+			rSl.Check(!leak, sum.Key+":owner-releases", a.Node.Pos(), "every path from taking the slot to an exit passes the release (or the defer that registers it)",
+				"after this caller became the owner of the name there is a path to a return that neither clears the ready flag nor has registered the deferred release: the summoners parked behind it are never woken")
+		}
+		if n == 0 {
+			rSl.Ok(sum.Key+":no-owner-flag", sum.Decl.Pos(), "SummonSwamp does not use an owner flag")
+		}
+	}
+
 	rCtx := c.Rule("C17.ctx", "condition-less wait loops in WaitForGracefulClose and SummonSwamp contain a select with a ctx.Done() case that returns; SummonSwamp bounds its wait for a closing swamp with a timeout context", 3)
 	for _, key := range []string{pkgSwamp + ".swamp.WaitForGracefulClose", pkgHydra + ".hydra.SummonSwamp"} {
 		f := c.Fn(key)
